@@ -50,7 +50,9 @@ def apply_odata_query(query: ClauseElement, odata_query: str) -> ClauseElement:
             str(required_join) not in existing_joins
             and str(required_join.key) not in existing_joins
         ):
-            query = query.join(required_join)
+            # Outer join: rows without the related object must stay visible to
+            # the rest of the filter (the navigated value is null for them).
+            query = query.join(required_join, isouter=True)
 
     return query.filter(where_clause)
 
